@@ -92,7 +92,19 @@ func ScalarClasses() []SC { return scalarClasses }
 
 // Scalar draws from a mixture: structured classes, sparse, dense, low/high halves, uniform.
 func (r *Rand) Scalar() SC {
-	switch r.Intn(12) {
+	switch r.Intn(13) {
+	case 12: // structured INTERNAL representation: the Montgomery form (k*2^256 mod l) is a
+		// boundary value, a word pattern or a small number
+		var m *big.Int
+		switch r.Intn(3) {
+		case 0:
+			m = scalarClasses[r.Intn(len(scalarClasses))].K
+		case 1:
+			m = ref.Sc(r.wordPattern(wordPats64, 64))
+		default:
+			m = big.NewInt(int64(r.Intn(1 << 16)))
+		}
+		return SC{ref.SMul(m, montRinvGen), "montgomery-structured"}
 	case 10: // every 64-bit word from a short list of carry-chain boundary patterns
 		return SC{ref.Sc(r.wordPattern(wordPats64, 64)), "word-patterns-64"}
 	case 11: // the same at 32-bit granularity
@@ -193,3 +205,5 @@ func (r *Rand) wordPattern(pats []uint64, width int) *big.Int {
 	}
 	return x
 }
+
+var montRinvGen = new(big.Int).ModInverse(new(big.Int).Lsh(big.NewInt(1), 256), ref.L)
